@@ -10,7 +10,7 @@ for x in "$@"; do if [ "$x" = "--" ]; then cur=b; continue; fi; if [ $cur = a ];
 mkdir -p /tmp/wt/conf
 for m in ${ROUND_MS:-m3 m4}; do
   [ -d /tmp/wt/$p/seeded/$m ] || { echo "no $m"; continue; }
-  flock /tmp/wt/test.lock /verif/tools/confirm_seed.sh /tmp/wt/$p /tmp/wt/$p/seeded/$m ${p}_$m > /tmp/wt/conf/$p-$m.txt 2>&1
+  if [ ! -s /tmp/wt/conf/$p-$m.txt ] || [ "${RECONFIRM:-0}" = 1 ]; then flock /tmp/wt/test.lock /verif/tools/confirm_seed.sh /tmp/wt/$p /tmp/wt/$p/seeded/$m ${p}_$m > /tmp/wt/conf/$p-$m.txt 2>&1; fi
   cat /tmp/wt/conf/$p-$m.txt
   if [ $m = m3 ] || [ $m = m5 ]; then /verif/tools/adopt2.sh /tmp/wt/$p $m $P /tmp/wt/conf/$p-$m.txt "${a[@]}" 2>&1 | tail -2
   else /verif/tools/adopt2.sh /tmp/wt/$p $m $P /tmp/wt/conf/$p-$m.txt "${b[@]}" 2>&1 | tail -2; fi
